@@ -48,9 +48,20 @@ def both(f, g):
     return lambda i: f(i) and g(i)
 
 
+# modules that have sub-directories on the triaged tree: for these a file name means that file only; any other module named in a
+# claim keeps its instances when it is turned into a directory of files (features/formatting.rs -> features/formatting/fmt.rs)
+_DIR_MODULES = ("features", "parser", "table", "lexer", "src")
+
+
 def files(*names):
     s = set(names)
-    return lambda i: bool(s & set(i.tags)) or "anchor" in i.tags
+    stems = tuple("/" + n[:-3] + "/" for n in names if n.endswith(".rs") and n[:-3] not in _DIR_MODULES)
+
+    def f(i):
+        if s & set(i.tags) or "anchor" in i.tags:
+            return True
+        return any(t.startswith("path:") and any(st in t for st in stems) for t in i.tags)
+    return f
 
 
 prop("C01", NEC + "Clauses: positions handed to TokenChange queries are absolute old positions (TOKCHANGE-ARGS); symbol "
@@ -181,7 +192,7 @@ prop("C11", NEC + "Clauses: the printer does not read byte positions (output is 
      "escapes the lexer reads back (CHAR-ESCAPES: otherwise the formatted text re-lexes differently and a second run changes it again); the "
      "all-comments helper is applied only to text whose parts print no comments themselves (COMMENT-PAIRING nested: otherwise every run adds "
      "another copy of the inner comments in front of the node).",
-     [{"rule": "FMT-PURE", "floor": 5}, {"rule": "CHAR-ESCAPES", "floor": 2}, {"rule": "COMMENT-PAIRING", "filter": tag("nested", "order"), "floor": 5}])
+     [{"rule": "FMT-PURE", "floor": 5}, {"rule": "CHAR-ESCAPES", "floor": 2}, {"rule": "COMMENT-PAIRING", "filter": tag("nested", "order"), "floor": 4}])
 
 prop("C12", NEC + "Clauses: an entry's name range is resolved against the token slice cut with that same entry's range "
      "(FRAME S7 in goto.rs / features.rs); inside a procedure the identifier is resolved local-then-global through a "
@@ -190,7 +201,7 @@ prop("C12", NEC + "Clauses: an entry's name range is resolved against the token 
      "by as_pos_range only (POS-CONV)." + PARSER_REF,
      [{"rule": "FRAME", "filter": files("goto.rs", "features.rs", "table.rs"), "floor": 16},
       {"rule": "SCOPE-ORDER", "filter": both(feat("goto"), nottag("typescope", "semantic")), "floor": 24}, {"rule": "ENTRY-GUARD", "floor": 6}, {"rule": "ENTRY-KIND", "floor": 4},
-      {"rule": "LOOKUP-NOPANIC", "filter": feat("goto"), "floor": 8}, {"rule": "BUILTIN-SET", "floor": 3}, {"rule": "POS-CONV", "filter": feat("goto"), "floor": 8},
+      {"rule": "LOOKUP-NOPANIC", "filter": feat("goto"), "floor": 8}, {"rule": "BUILTIN-SET", "floor": 3}, {"rule": "POS-CONV", "filter": feat("goto"), "floor": 6},
        {"rule": "IDENT-RANGE", "filter": both(tag("identexact"), feat("goto")), "floor": 1},
       {"rule": "CURSOR-CMP", "filter": feat("goto"), "floor": 0},
       {"rule": "FRAME", "filter": files("parser.rs", "utility.rs"), "floor": 3},
@@ -228,7 +239,7 @@ prop("C15", NEC + "Clauses: legend order = enum discriminants (T6); token positi
      "compared and declaration slices are cut in the right frame (FRAME in semantic_tokens.rs); token lengths are UTF-16 "
      "(LEN-UNITS); the delta base advances exactly when a token is emitted (SEMTOK-PAIRING); identifiers inside a procedure are "
      "classified through the local-then-global LookupTable (SCOPE-ORDER)." + PARSER_REF,
-     [{"rule": "TABLES-SEMTOK", "floor": 24}, {"rule": "FRAME", "filter": files("semantic_tokens.rs"), "floor": 7},
+     [{"rule": "TABLES-SEMTOK", "floor": 24}, {"rule": "FRAME", "filter": files("semantic_tokens.rs"), "floor": 6},
       {"rule": "LEN-UNITS", "filter": tag("lsp"), "floor": 1}, {"rule": "SEMTOK-PAIRING", "floor": 9},
       {"rule": "SCOPE-ORDER", "filter": both(feat("semantic_tokens"), nottag("typescope", "semantic")), "floor": 9}, {"rule": "FRAME", "filter": files("parser.rs", "utility.rs"), "floor": 3},
       {"rule": "TEXT-SYNC", "filter": tag("utf16"), "floor": 1}])
@@ -262,7 +273,7 @@ prop("C18", NEC + "Clauses: every path through every Request arm of the three ph
      "exit handling per phase; senders released before the tasks are joined; end of input falls through to Ok(()); "
      "responses can only be built from the request's PreparedResponse; JSON-RPC error code numbers; the broker answers a handler's "
      "document query on every path, so that `document not open` is an answer (null) and not an error that ends the reader loop (BROKER answer).",
-     [{"rule": "LIFECYCLE", "floor": 97}, {"rule": "WHO-MAY", "floor": 11}, {"rule": "TABLES-ERRCODE", "floor": 4},
+     [{"rule": "LIFECYCLE", "floor": 97}, {"rule": "WHO-MAY", "floor": 9}, {"rule": "TABLES-ERRCODE", "floor": 4},
       {"rule": "BROKER", "filter": tag("answer"), "floor": 1},
       {"rule": "SEND-AWAIT", "floor": 11},
       {"rule": "CODEC", "floor": 8}])
